@@ -1,4 +1,5 @@
 import OdxVerif.Proofs.ComposeMsg
+import OdxVerif.Proofs.MuxDefault
 /-! Multiplexer tier: requests/responses whose top-level parameters are tier-2 parameters (`Tree`) or MULTIPLEXERs
     whose selected case carries a tier-2 structure. A multiplexer is "a structure with two members" — the switch
     key (an integer object at the key's byte/bit position) and the content (the structure of the selected case at the
@@ -23,37 +24,44 @@ theorem Good.guard {α : Type} {c : Pair α} (hc : Good c) (g : α → Prop) (hg
     exact ⟨v, c1, o1, g1, f1, by show g (c.dec d).1; rw [v]; exact hg⟩
   core := hc.core
 
-/-- a MULTIPLEXER-valued VALUE parameter with its selected case -/
+/-- a MULTIPLEXER-valued VALUE parameter with its selected case (a regular CASE or the DEFAULT-CASE) -/
 structure MuxLeaf where
   name : String
   bytePos : Option Nat          -- BYTE-POSITION of the parameter
   muxBp : Nat                   -- BYTE-POSITION of the multiplexer (where the case structure starts)
   swBp : Nat                    -- BYTE-POSITION of the switch key
   key : Obj                     -- the switch key's object (its `name`/`bytePos` fields are ignored)
-  before : List MuxCaseD        -- the cases declared before the selected one
-  after : List MuxCaseD
-  caseName : String
-  lo : Int
-  up : Int
+  cases : List MuxCaseD         -- all CASEs, in declaration order (those not selected are arbitrary)
+  dflt : Option (String × Option Dop)
+  caseName : String             -- short name of the selected case / of the DEFAULT-CASE
+  lo : Int                      -- the switch key the encoder writes for it
   kids : List Tree              -- the structure of the selected case
 
 def MuxLeaf.keyObj (m : MuxLeaf) : Obj := { m.key with name := "", bytePos := some m.swBp }
 
-def MuxLeaf.cases (m : MuxLeaf) : List MuxCaseD :=
-  m.before ++ .mk m.caseName m.lo m.up (some (.struct none (Trees.toParams m.kids))) :: m.after
+/-- the structure of the selected case as the model sees it -/
+def MuxLeaf.sdop (m : MuxLeaf) : Dop := .struct none (Trees.toParams m.kids)
 
-def MuxLeaf.dop (m : MuxLeaf) (dflt : Option (String × Option Dop)) : Dop :=
+def MuxLeaf.dop (m : MuxLeaf) : Dop :=
   .mux m.muxBp m.swBp m.key.bitPos (.simple (.std m.keyObj.bt m.key.enc m.key.hl m.key.bl none false) m.keyObj.bt .identical)
-    m.cases dflt
+    m.cases m.dflt
 
-def MuxLeaf.toParam (m : MuxLeaf) (dflt : Option (String × Option Dop)) : Param :=
-  .mk m.name m.bytePos none (.value (m.dop dflt) none)
+def MuxLeaf.toParam (m : MuxLeaf) : Param :=
+  .mk m.name m.bytePos none (.value m.dop none)
 
-/-- switch key object ok and able to hold the lower limit; the selected case is the first one that claims its lower
-    limit and the first one of its name -/
+/-- how the encoder gets from the case name to the switch key and the structure -/
+def MuxLeaf.encSel (m : MuxLeaf) : Prop :=
+  (∃ c, caseOfName m.caseName m.cases = some c ∧ c.lower = m.lo ∧ c.struct = some m.sdop) ∨
+  (caseOfName m.caseName m.cases = none ∧ m.dflt = some (m.caseName, some m.sdop) ∧ m.lo = defaultCaseKey m.cases)
+
+/-- how the decoder gets from the switch key back to the case -/
+def MuxLeaf.decSel (m : MuxLeaf) : Prop :=
+  (∃ c, caseOfKey m.lo m.cases = some c ∧ c.name = m.caseName ∧ c.struct = some m.sdop) ∨
+  (caseOfKey m.lo m.cases = none ∧ m.dflt = some (m.caseName, some m.sdop))
+
+/-- switch key object ok and able to hold the key; encoder and decoder select the same case -/
 def MuxLeaf.ok (m : MuxLeaf) : Prop :=
-  m.keyObj.ok ∧ m.keyObj.isInt ∧ m.keyObj.inRange (.int m.lo) ∧ m.lo ≤ m.up ∧
-  caseOfKey m.lo m.before = none ∧ caseOfName m.caseName m.before = none ∧ Trees.okAll m.kids ∧ Trees.namesOk m.kids
+  m.keyObj.ok ∧ m.keyObj.isInt ∧ m.keyObj.inRange (.int m.lo) ∧ m.encSel ∧ m.decSel ∧ Trees.okAll m.kids ∧ Trees.namesOk m.kids
 
 /-- pure encoder/decoder: key, then the content at the multiplexer's byte position, all relative to the parameter's
     first byte -/
@@ -63,7 +71,7 @@ def MuxLeaf.pair (m : MuxLeaf) : Pair PVal :=
         (fun p => PVal.pair m.caseName (PVal.dict p.2))).inOrigin).atPos m.bytePos
 
 theorem MuxLeaf.good (m : MuxLeaf) (h : m.ok) : Good m.pair := by
-  obtain ⟨hk, _, hr, _, _, _, hkids, _⟩ := h
+  obtain ⟨hk, _, hr, _, _, hkids, _⟩ := h
   have h1 : Good ((Pair.ofObj m.keyObj (.int m.lo)).guard (· = IVal.int m.lo)) :=
     (Good.ofObj m.keyObj hk (.int m.lo) hr).guard _ rfl
   exact (((h1.seq (((Trees.good m.kids hkids).inOrigin).atPos (some m.muxBp))).map
@@ -112,38 +120,54 @@ theorem encodeParam_value_step (f : Nat) (name : String) (bp bitp : Option Nat) 
     | error e => rfl
     | ok p => cases p; rfl
 
-/-- one unfolding of the multiplexer encoder for a value `(case name, content)` whose case has a structure -/
+/-- one unfolding of the multiplexer encoder for a value `(case name, content)`: the name selects a regular case with
+    a structure (switch key = its lower limit) or the DEFAULT-CASE with a structure (switch key = `defaultCaseKey`) -/
 theorem encodeDop_mux_step (f : Nat) (bp sbp : Nat) (sbit : Option Nat) (sd : Dop) (cases : List MuxCaseD)
     (dflt : Option (String × Option Dop)) (name : String) (v : PVal) (s : EncState) (hcb : s.cursorBit = 0)
-    (c : MuxCaseD) (d : Dop) (hsel : caseOfName name cases = some c) (hst : c.struct = some d) :
+    (key : Int) (d : Dop)
+    (hsel : (∃ c, caseOfName name cases = some c ∧ c.lower = key ∧ c.struct = some d) ∨
+            (caseOfName name cases = none ∧ dflt = some (name, some d) ∧ key = defaultCaseKey cases)) :
     encodeDop (f + 1) (.mux bp sbp sbit sd cases dflt) (.pair name v) s true =
-      (match encodeParam f (.mk "" (some sbp) sbit (.value sd none)) (some (.atom (.int c.lower)))
+      (match encodeParam f (.mk "" (some sbp) sbit (.value sd none)) (some (.atom (.int key)))
           { s with origin := s.cursorByte } true with
        | .ok (_, s1) =>
          (match encodeParam f (.mk "" (some bp) none (.value d none)) (some v) s1 true with
           | .ok (_, s2) => .ok ((), { s2 with origin := s.origin })
           | .error e => .error e)
        | .error e => .error e) := by
-  simp only [encodeDop, bind, pure, run_bind, run_getS, run_modifyS, run_pure, run_ite, hcb, hsel, hst, ne_eq,
-    not_true_eq_false, if_false]
-  generalize encodeParam f (.mk "" (some sbp) sbit (.value sd none)) _ _ true = r1
-  cases r1 with
-  | error e => rfl
-  | ok p =>
-    obtain ⟨u, s1⟩ := p
-    simp only []
-    generalize encodeParam f (.mk "" (some bp) none (.value d none)) _ _ true = r2
-    cases r2 with
+  rcases hsel with ⟨c, hc, hlow, hst⟩ | ⟨hc, hd, hkey⟩
+  · subst hlow
+    simp only [encodeDop, bind, pure, run_bind, run_getS, run_modifyS, run_pure, run_ite, hcb, hc, hst, ne_eq,
+      not_true_eq_false, if_false]
+    generalize encodeParam f (.mk "" (some sbp) sbit (.value sd none)) _ _ true = r1
+    cases r1 with
     | error e => rfl
-    | ok q => cases q; rfl
+    | ok p =>
+      obtain ⟨u, s1⟩ := p
+      simp only []
+      generalize encodeParam f (.mk "" (some bp) none (.value d none)) _ _ true = r2
+      cases r2 with
+      | error e => rfl
+      | ok q => cases q; rfl
+  · subst hkey
+    simp only [encodeDop, bind, pure, run_bind, run_getS, run_modifyS, run_pure, run_ite, hcb, hc, hd, ne_eq,
+      not_true_eq_false, if_false, if_true]
+    generalize encodeParam f (.mk "" (some sbp) sbit (.value sd none)) _ _ true = r1
+    cases r1 with
+    | error e => rfl
+    | ok p =>
+      obtain ⟨u, s1⟩ := p
+      simp only []
+      generalize encodeParam f (.mk "" (some bp) none (.value d none)) _ _ true = r2
+      cases r2 with
+      | error e => rfl
+      | ok q => cases q; rfl
 
-theorem MuxLeaf.encode_eq (m : MuxLeaf) (hok : m.ok) (dflt : Option (String × Option Dop)) (fuel : Nat)
+theorem MuxLeaf.encode_eq (m : MuxLeaf) (hok : m.ok) (fuel : Nat)
     (hf : Trees.need m.kids + 6 ≤ fuel) (s : EncState) :
-    ∃ s', encodeParam fuel (m.toParam dflt) (some m.pair.val) s true = .ok ((), s') ∧ SameCore s' (m.pair.enc s) := by
-  obtain ⟨hk, hki, hr, hlu, hbk, hbn, hkids, hnames⟩ := hok
+    ∃ s', encodeParam fuel m.toParam (some m.pair.val) s true = .ok ((), s') ∧ SameCore s' (m.pair.enc s) := by
+  obtain ⟨hk, hki, hr, hesel, hdsel, hkids, hnames⟩ := hok
   obtain ⟨f, rfl⟩ : ∃ f, fuel = f + 2 + 1 + 1 := ⟨fuel - 4, by omega⟩
-  have hsel : caseOfName m.caseName m.cases = some (.mk m.caseName m.lo m.up (some (.struct none (Trees.toParams m.kids)))) :=
-    caseOfName_append _ _ _ _ hbn rfl
   -- the state in which the multiplexer starts, and the one its members are laid out in
   let s1 : EncState := { s with cursorByte := posOf m.bytePos s.origin s.cursorByte, cursorBit := 0 }
   let s2 : EncState := { s1 with origin := s1.cursorByte }
@@ -154,7 +178,7 @@ theorem MuxLeaf.encode_eq (m : MuxLeaf) (hok : m.ok) (dflt : Option (String × O
   obtain ⟨s3, hrun3, hcore3⟩ := Tree.encode_eq m.content (by simpa [MuxLeaf.content, Tree.okAll] using hkids)
     (by simpa [MuxLeaf.content, Tree.namesOk] using hnames) (f + 2)
     (by simp only [MuxLeaf.content, Tree.need]; omega) (encStep m.keyObj (.int m.lo) s2)
-  have hrun3' : encodeParam (f + 2) (.mk "" (some m.muxBp) none (.value (.struct none (Trees.toParams m.kids)) none))
+  have hrun3' : encodeParam (f + 2) (.mk "" (some m.muxBp) none (.value m.sdop none))
       (some (.dict (Trees.pair m.kids).val)) (encStep m.keyObj (.int m.lo) s2) true = .ok ((), s3) := hrun3
   refine ⟨{ s3 with origin := s.origin, cursorBit := 0 }, ?_, ?_⟩
   · rw [MuxLeaf.pair_val]
@@ -162,8 +186,7 @@ theorem MuxLeaf.encode_eq (m : MuxLeaf) (hok : m.ok) (dflt : Option (String × O
     rw [encodeParam_value_step]
     simp only [Option.getD_none]
     unfold MuxLeaf.dop
-    rw [encodeDop_mux_step (f + 2) _ _ _ _ _ _ _ _ _ rfl _ _ hsel rfl]
-    simp only [MuxCaseD.lower]
+    rw [encodeDop_mux_step (f + 2) _ _ _ _ _ _ _ _ _ rfl m.lo m.sdop hesel]
     rw [hkey]
     simp only []
     rw [hrun3']
@@ -188,21 +211,31 @@ theorem decodeParam_value_step (f : Nat) (name : String) (bp bitp : Option Nat) 
     | error e => rfl
     | ok p => cases p; rfl
 
-/-- one unfolding of the multiplexer decoder when the switch key read is `key` and selects a case with a structure -/
+/-- one unfolding of the multiplexer decoder when the switch key read is `key` and selects a case (regular or default)
+    called `name` with structure `st` -/
 theorem decodeDop_mux_step (f : Nat) (bp sbp : Nat) (sbit : Option Nat) (sd : Dop) (cases : List MuxCaseD)
     (dflt : Option (String × Option Dop)) (d : DecState) (key : Int) (d1 : DecState)
     (hkey : decodeParam f (.mk "" (some sbp) sbit (.value sd none)) { d with origin := d.cursorByte } true =
       .ok (.atom (.int key), d1))
-    (c : MuxCaseD) (st : Dop) (hsel : caseOfKey key cases = some c) (hst : c.struct = some st) :
+    (name : String) (st : Dop)
+    (hsel : (∃ c, caseOfKey key cases = some c ∧ c.name = name ∧ c.struct = some st) ∨
+            (caseOfKey key cases = none ∧ dflt = some (name, some st))) :
     decodeDop (f + 1) (.mux bp sbp sbit sd cases dflt) d true =
       (match decodeParam f (.mk "" (some bp) none (.value st none)) { d1 with cursorByte := d.cursorByte + bp } true with
-       | .ok (v, d2) => .ok (.pair c.name v, { d2 with origin := d.origin })
+       | .ok (v, d2) => .ok (.pair name v, { d2 with origin := d.origin })
        | .error e => .error e) := by
-  simp only [decodeDop, bind, pure, run_bind, run_getS, run_modifyS, run_pure, hkey, hsel, hst]
-  generalize decodeParam f (.mk "" (some bp) none (.value st none)) _ true = r
-  cases r with
-  | error e => rfl
-  | ok p => cases p; rfl
+  rcases hsel with ⟨c, hc, hn, hst⟩ | ⟨hc, hd⟩
+  · subst hn
+    simp only [decodeDop, bind, pure, run_bind, run_getS, run_modifyS, run_pure, hkey, hc, hst]
+    generalize decodeParam f (.mk "" (some bp) none (.value st none)) _ true = r
+    cases r with
+    | error e => rfl
+    | ok p => cases p; rfl
+  · simp only [decodeDop, bind, pure, run_bind, run_getS, run_modifyS, run_pure, hkey, hc, hd]
+    generalize decodeParam f (.mk "" (some bp) none (.value st none)) _ true = r
+    cases r with
+    | error e => rfl
+    | ok p => cases p; rfl
 
 /-- a parameter with an explicit BYTE-POSITION does not care where the cursor was -/
 theorem decodeParam_explicit_cursor (f : Nat) (n : String) (b : Nat) (bit : Option Nat) (k : PKind) (d : DecState) (c : Nat) :
@@ -210,13 +243,11 @@ theorem decodeParam_explicit_cursor (f : Nat) (n : String) (b : Nat) (bit : Opti
       decodeParam (f + 1) (.mk n (some b) bit k) d true := by
   simp only [decodeParam, bind, run_bind, run_modifyS]
 
-theorem MuxLeaf.decode_eq (m : MuxLeaf) (hok : m.ok) (dflt : Option (String × Option Dop)) (fuel : Nat)
+theorem MuxLeaf.decode_eq (m : MuxLeaf) (hok : m.ok) (fuel : Nat)
     (hf : Trees.need m.kids + 6 ≤ fuel) (d : DecState) (hcb : d.cursorBit = 0) (hfit : m.pair.fits d) :
-    decodeParam fuel (m.toParam dflt) d true = .ok ((m.pair.dec d).1, (m.pair.dec d).2) := by
-  obtain ⟨hk, hki, hr, hlu, hbk, hbn, hkids, hnames⟩ := hok
+    decodeParam fuel m.toParam d true = .ok ((m.pair.dec d).1, (m.pair.dec d).2) := by
+  obtain ⟨hk, hki, hr, hesel, hdsel, hkids, hnames⟩ := hok
   obtain ⟨f, rfl⟩ : ∃ f, fuel = f + 2 + 1 + 1 := ⟨fuel - 4, by omega⟩
-  have hsel : caseOfKey m.lo m.cases = some (.mk m.caseName m.lo m.up (some (.struct none (Trees.toParams m.kids)))) :=
-    caseOfKey_append _ _ _ _ hbk ⟨Int.le_refl _, hlu⟩
   let d1 : DecState := { d with cursorByte := posOf m.bytePos d.origin d.cursorByte, cursorBit := 0 }
   let d2 : DecState := { d1 with origin := d1.cursorByte }
   have hd2 : d2 = { d with cursorByte := posOf m.bytePos d.origin d.cursorByte, origin := posOf m.bytePos d.origin d.cursorByte } := by
@@ -236,14 +267,13 @@ theorem MuxLeaf.decode_eq (m : MuxLeaf) (hok : m.ok) (dflt : Option (String × O
     exact this
   have hcont := Tree.decode_eq m.content (by simpa [MuxLeaf.content, Tree.okAll] using hkids) (f + 2)
     (by simp only [MuxLeaf.content, Tree.need]; omega) (decStep m.keyObj d2).2 rfl hcfit
-  have hcont' : decodeParam (f + 2) (.mk "" (some m.muxBp) none (.value (.struct none (Trees.toParams m.kids)) none))
+  have hcont' : decodeParam (f + 2) (.mk "" (some m.muxBp) none (.value m.sdop none))
       (decStep m.keyObj d2).2 true = .ok ((m.content.pair.dec (decStep m.keyObj d2).2).1, (m.content.pair.dec (decStep m.keyObj d2).2).2) := hcont
   unfold MuxLeaf.toParam
   rw [decodeParam_value_step]
   simp only [Option.getD_none]
   unfold MuxLeaf.dop
-  rw [decodeDop_mux_step (f + 2) _ _ _ _ _ _ _ m.lo _ hkey _ _ hsel rfl]
-  simp only [MuxCaseD.struct, MuxCaseD.name]
+  rw [decodeDop_mux_step (f + 2) _ _ _ _ _ _ _ m.lo _ hkey m.caseName m.sdop hdsel]
   rw [decodeParam_explicit_cursor, hcont']
   have hcb3 : (m.content.pair.dec (decStep m.keyObj d2).2).2.cursorBit = 0 := Tree.dec_cursorBit m.content _ rfl
   simp only []
@@ -258,55 +288,75 @@ theorem MuxLeaf.decode_eq (m : MuxLeaf) (hok : m.ok) (dflt : Option (String × O
   simp only [Except.ok.injEq, Prod.mk.injEq, true_and]
   rw [← hcb3]
 
+/-! ### the two ways of selecting a case -/
+
+/-- a regular CASE `caseName` with limits `lo..up`, declared between the cases `before` and `after`, selected by name -/
+theorem MuxLeaf.sel_of_case (m : MuxLeaf) (before after : List MuxCaseD) (up : Int)
+    (hcases : m.cases = before ++ .mk m.caseName m.lo up (some m.sdop) :: after) (hlu : m.lo ≤ up)
+    (hbk : caseOfKey m.lo before = none) (hbn : caseOfName m.caseName before = none) : m.encSel ∧ m.decSel := by
+  constructor
+  · left
+    exact ⟨_, by rw [hcases]; exact caseOfName_append _ _ _ _ hbn rfl, rfl, rfl⟩
+  · left
+    exact ⟨_, by rw [hcases]; exact caseOfKey_append _ _ _ _ hbk ⟨Int.le_refl _, hlu⟩, rfl, rfl⟩
+
+/-- the DEFAULT-CASE, selected by its name: whatever the cases are (any order, overlapping or not), the switch key the
+    encoder computes is claimed by none of them, so the decoder falls through to the DEFAULT-CASE -/
+theorem MuxLeaf.sel_of_default (m : MuxLeaf) (hd : m.dflt = some (m.caseName, some m.sdop))
+    (hname : caseOfName m.caseName m.cases = none) (hkey : m.lo = defaultCaseKey m.cases) : m.encSel ∧ m.decSel := by
+  constructor
+  · right; exact ⟨hname, hd, hkey⟩
+  · right; exact ⟨by rw [hkey]; exact caseOfKey_default m.cases, hd⟩
+
 /-! ### requests / responses made of tier-2 parameters and multiplexers -/
 
 inductive Item where
   | tree (t : Tree)
-  | mux (m : MuxLeaf) (dflt : Option (String × Option Dop))
+  | mux (m : MuxLeaf)
 
 def Item.name : Item → String
   | .tree t => t.name
-  | .mux m _ => m.name
+  | .mux m => m.name
 def Item.toParam : Item → Param
   | .tree t => t.toParam
-  | .mux m dflt => m.toParam dflt
+  | .mux m => m.toParam
 def Item.pair : Item → Pair PVal
   | .tree t => t.pair
-  | .mux m _ => m.pair
+  | .mux m => m.pair
 def Item.ok : Item → Prop
   | .tree t => t.okAll ∧ t.namesOk
-  | .mux m _ => m.ok
+  | .mux m => m.ok
 def Item.need : Item → Nat
   | .tree t => t.need
-  | .mux m _ => Trees.need m.kids + 6
+  | .mux m => Trees.need m.kids + 6
 
 theorem Item.good (i : Item) (h : i.ok) : Good i.pair := by
   cases i with
   | tree t => exact Tree.good t h.1
-  | mux m dflt => exact MuxLeaf.good m h
+  | mux m => exact MuxLeaf.good m h
 
 theorem Item.toParam_name (i : Item) : i.toParam.name = i.name := by
   cases i with
   | tree t => exact Tree.toParam_name t
-  | mux m dflt => rfl
+  | mux m => rfl
 
 theorem Item.val_ne_none (i : Item) : i.pair.val ≠ PVal.none := by
   cases i with
   | tree t => exact Tree.val_ne_none t
-  | mux m dflt => simp [Item.pair, MuxLeaf.pair_val]
+  | mux m => simp [Item.pair, MuxLeaf.pair_val]
 
 theorem Item.toParam_kind (i : Item) :
     (∃ bp bitp dop, i.toParam = .mk i.name bp bitp (.value dop none)) ∨
     (∃ bp bitp dct v, i.toParam = .mk i.name bp bitp (.codedConst dct v)) := by
   cases i with
   | tree t => exact Tree.toParam_kind t
-  | mux m dflt => exact Or.inl ⟨_, _, _, rfl⟩
+  | mux m => exact Or.inl ⟨_, _, _, rfl⟩
 
 theorem Item.encode_eq (i : Item) (h : i.ok) (fuel : Nat) (hf : i.need ≤ fuel) (s : EncState) :
     ∃ s', encodeParam fuel i.toParam (some i.pair.val) s true = .ok ((), s') ∧ SameCore s' (i.pair.enc s) := by
   cases i with
   | tree t => exact Tree.encode_eq t h.1 h.2 fuel hf s
-  | mux m dflt => exact MuxLeaf.encode_eq m h dflt fuel hf s
+  | mux m => exact MuxLeaf.encode_eq m h fuel hf s
 
 theorem MuxLeaf.dec_cursorBit (m : MuxLeaf) (d : DecState) (h : d.cursorBit = 0) : (m.pair.dec d).2.cursorBit = 0 := by
   show ((m.content.pair.dec (decStep m.keyObj
@@ -316,13 +366,13 @@ theorem MuxLeaf.dec_cursorBit (m : MuxLeaf) (d : DecState) (h : d.cursorBit = 0)
 theorem Item.dec_cursorBit (i : Item) (d : DecState) (h : d.cursorBit = 0) : (i.pair.dec d).2.cursorBit = 0 := by
   cases i with
   | tree t => exact Tree.dec_cursorBit t d h
-  | mux m dflt => exact MuxLeaf.dec_cursorBit m d h
+  | mux m => exact MuxLeaf.dec_cursorBit m d h
 
 theorem Item.decode_eq (i : Item) (h : i.ok) (fuel : Nat) (hf : i.need ≤ fuel) (d : DecState) (hcb : d.cursorBit = 0)
     (hfit : i.pair.fits d) : decodeParam fuel i.toParam d true = .ok ((i.pair.dec d).1, (i.pair.dec d).2) := by
   cases i with
   | tree t => exact Tree.decode_eq t h.1 fuel hf d hcb hfit
-  | mux m dflt => exact MuxLeaf.decode_eq m h dflt fuel hf d hcb hfit
+  | mux m => exact MuxLeaf.decode_eq m h fuel hf d hcb hfit
 
 def Items.toParams (is : List Item) : List Param := is.map Item.toParam
 
